@@ -18,7 +18,7 @@ DISTINCT_RULE = (
     "floating point neighbours for get_nearest_price; every tick x n in [-400,400] for price_ticks_away; OrderValidation on real orders over price x size/liability grids "
     "around every threshold for all currencies, ladders, sides, order types, min_bet_validation on/off; distinct = distinct (function, input) pairs evaluated"
 )
-RULES = ["nearest", "ticks-away", "validation"]
+RULES = ["nearest", "ticks-away", "validation", "instruction"]
 MINIMA = {"quick": {"rule_nearest": 1200000, "rule_ticks-away": 280000, "rule_validation": 100000}, "thorough": {"rule_nearest": 1200000, "rule_ticks-away": 280000, "rule_validation": 400000}}
 ASSUMPTIONS = [
     "the exchange's increment table as written in vf/ladder.py (independent of flumine.utils.PRICES)",
@@ -221,6 +221,19 @@ def run(case):
     return out.result(sample={"case": case} if kind != "nearest" or case["lo"] == 0 else None)
 
 
+def _sent_as_validated(out, order, price, ladder):
+    """What reaches the exchange is the place instruction: it carries the price (and size) that was validated."""
+    out.rule("instruction")
+    ins = order.create_place_instruction()
+    body = ins.get("limitOrder") or ins.get("limitOnCloseOrder") or {}
+    sent = body.get("price")
+    if sent is None or abs(float(sent) - float(price)) > 1e-9:
+        out.v("instruction-price-differs-from-validated-price", {"ladder": ladder}, validated=price, sent=sent)
+    want_size = getattr(order.order_type, "size", None)
+    if want_size is not None and order.order_type.bet_target_type is None and body.get("size") != want_size:
+        out.v("instruction-size-differs-from-validated-size", {"ladder": ladder}, validated=want_size, sent=body.get("size"))
+
+
 def _mk(flumine_mod):
     from flumine import FlumineSimulation, clients, BaseStrategy
     from flumine.controls.tradingcontrols import OrderValidation
@@ -328,12 +341,18 @@ def _validation(case, out):
             def __init__(s):
                 s.details = None  # what the account endpoint answers; None: the call fails (transient API error)
 
+            probe = None  # what the main loop does while the worker thread's poll is on its way (validates orders)
+
             def get_account_details(s):
+                if s.probe:
+                    s.probe("details")
                 if s.details is None:
                     raise APIError(None)
                 return s.details
 
             def get_account_funds(s):
+                if s.probe:
+                    s.probe("funds")
                 raise APIError(None)
 
         class _Api:
@@ -348,10 +367,27 @@ def _validation(case, out):
             bc.min_bet_validation = True
             bc.betting_client.account.details = AccountDetails(currencyCode=cur, discountRate=0)
             bc.update_account_details()
+            par = currency_parameters[cur]
+            ctrl_ = OrderValidation(fw)
+
+            def probe(where, bc=bc, cur=cur, par=par, ctrl_=ctrl_):
+                # the poll runs on a worker thread: the main loop validates orders while the request is on its way
+                for attr, want in (("min_bet_size", par["min_bet_size"]), ("min_bet_payout", par["min_bet_payout"]), ("min_bsp_liability", par["min_bsp_liability"])):
+                    out.rule("validation")
+                    if getattr(bc, attr) != want:
+                        out.v("client-minimum-differs-from-currency", {"attr": attr, "first": cur, "during_poll": where}, currency=cur, got=getattr(bc, attr), expected=want)
+                small = round(par["min_bet_size"] / 2, 2)
+                o_ = Trade("1.1", 1, 0, strategy).create_order("BACK", LimitOrder(1.5, small))
+                o_.update_client(bc)
+                out.rule("validation")
+                if not _refused(ctrl_, o_) and small * 1.5 < par["min_bet_payout"]:
+                    out.v("limit-validation-differs", {"expected_valid": False, "currency_min": True, "during_poll": where}, currency=cur, price=1.5, size=small, refused=False)
+
             for failed in (False, True, True, False):
                 bc.betting_client.account.details = None if failed else AccountDetails(currencyCode=cur, discountRate=0)
+                bc.betting_client.account.probe = probe
                 bc.update_account_details()
-                par = currency_parameters[cur]
+                bc.betting_client.account.probe = None
                 for attr, want in (("min_bet_size", par["min_bet_size"]), ("min_bet_payout", par["min_bet_payout"]), ("min_bsp_liability", par["min_bsp_liability"])):
                     out.rule("validation")
                     n += 1
@@ -404,12 +440,15 @@ def _validation(case, out):
                 continue
             p = c / 100
             for ladder, lad in (("CLASSIC", L.CLASSIC_C), ("FINEST", None)):
-                refused = _refused(control, order_of("BACK", LimitOrder(p, 5.0, price_ladder_definition=ladder)))
+                o_ = order_of("BACK", LimitOrder(p, 5.0, price_ladder_definition=ladder))
+                refused = _refused(control, o_)
                 out.rule("validation")
                 n += 1
                 ok = (c in _TICKSET) if ladder == "CLASSIC" else (101 <= c <= 100000)
                 if refused == ok:
                     out.v("ladder-validation-differs", {"ladder": ladder, "expected_valid": ok}, price=p, refused=refused)
+                if not refused:
+                    _sent_as_validated(out, o_, p, ladder)
         # several markets' ranges go through the one control instance, including ranges that share their ends but not their interval, in both orders
         ranges = ((0.5, 100.5, 1.0), (0.0, 60.0, 1.0), (0.5, 20.5, 0.5), (-10.5, 10.5, 0.5), (100.0, 400.0, 1.0), (0.5, 100.5, 0.5), (0.0, 60.0, 0.5), (0.5, 20.5, 1.0), (-10.5, 10.5, 1.0))
         for lo, hi, iv in ranges + ranges[::-1]:
@@ -418,12 +457,15 @@ def _validation(case, out):
             k = lo - 2
             while k <= hi + 2:
                 for p in (k, k + iv / 2, k + 0.25):
-                    refused = _refused(control, order_of("LAY", LimitOrder(p, 5.0, price_ladder_definition="LINE_RANGE", line_range_info=info)))
+                    o_ = order_of("LAY", LimitOrder(p, 5.0, price_ladder_definition="LINE_RANGE", line_range_info=info))
+                    refused = _refused(control, o_)
                     out.rule("validation")
                     n += 1
                     ok = p in valid
                     if refused == ok:
                         out.v("ladder-validation-differs", {"ladder": "LINE_RANGE", "expected_valid": ok}, price=p, range=(lo, hi, iv), refused=refused)
+                    if not refused:
+                        _sent_as_validated(out, o_, p, "LINE_RANGE")
                 k += iv
         # small stakes on line markets: the payout rule is the same as everywhere (stake x price reaches the minimum payout)
         client.min_bet_validation = True
